@@ -22,7 +22,8 @@ LEVEL = "exploration"
 RULE = (
     "Hypothesis recipes in index notation with only four index names, so the same Index object is re-used in sibling "
     "and nested summation / component-tensor scopes; component tensors indexed by indices that are bound inside them; "
-    "variables used several times with different components; zero tensors with free indices; nested component and "
+    "variables used several times with different components; one component tensor indexed twice with different indices; "
+    "zero tensors with free indices (also of different extents); nested component and "
     "list tensors; optional spatial derivatives (expanded first). One pass is drawn per case. non-trivial = the "
     "input contains a component tensor, an index sum or a variable and the pass changed the expression; "
     "distinct = distinct (recipe, pass)."
@@ -36,13 +37,13 @@ ASSUMPTIONS = [
 BUDGET = {"quick": {"examples": 8000, "seconds": 60}, "thorough": {"examples": 250000, "seconds": 1500}}
 
 PROFILE = Profile(
-    ops={"arith", "index", "tensor", "var", "cond", "math", "pow", "shortcut", "abs", "capture", "zerofree"},
+    ops={"arith", "index", "tensor", "var", "cond", "math", "pow", "shortcut", "abs", "capture", "zerofree", "ctreuse"},
     leaves={"coef", "const", "lit", "zero", "x"},
     max_rank=2, elements="lagrange", manifolds=False, nindex=4,
     weights={"var": 2, "comp": 4, "indexfree": 4, "contract": 3, "mul": 3},
 )
 PROFILE_D = Profile(
-    ops={"arith", "index", "tensor", "var", "cond", "math", "pow", "compound", "deriv", "abs", "zerofree"},
+    ops={"arith", "index", "tensor", "var", "cond", "math", "pow", "compound", "deriv", "abs", "zerofree", "ctreuse"},
     leaves={"coef", "const", "lit", "zero", "x"},
     max_rank=2, elements="all", manifolds=True, nindex=4,
     weights={"var": 2, "comp": 3, "indexfree": 3, "contract": 3},
